@@ -1,6 +1,6 @@
 (* CallFacts.v — the function call protocol (C14) on the evaluator model: what a function node logs
    and hands to the user function, stated with the specification for "the values selected before it". *)
-From JP Require Import Eval WF Verdict Spec EvalInv1 EvalInv3 EvalInv4 Refine1 Refine2.
+From JP Require Import Eval WF Verdict Spec CallDefs EvalInv1 EvalInv3 EvalInv4 Refine1 Refine2.
 From Coq Require Import Lia.
 Open Scope string_scope.
 Open Scope list_scope.
@@ -26,12 +26,7 @@ Section Calls.
     end.
   Proof. rewrite retrieve_unfold. cbv zeta. destruct (ffun f (snd cur)); reflexivity. Qed.
 
-  (* the arguments an aggregate receives, by the specification: every value its parameter path selects,
-     or the elements of the single array when that path is not a value group *)
-  Definition agg_args (param : node) (root : value) (cur : cursor) : list value :=
-    let plain := map (fun x => res_value (Spec.wrap x)) (sp param root cur) in
-    if vgroup (node_basic param) then plain
-    else match plain with VArr xs :: _ => xs | _ => plain end.
+  Notation agg_args := (agg_args ffun afun regex_match).
 
   (* an aggregate node evaluates its parameter path into a private container; when that path selects
      something it calls the function exactly once with agg_args and its result becomes the single
@@ -60,7 +55,7 @@ Section Calls.
       split; [destruct (sp param root cur); [reflexivity|discriminate]|]. exists err. reflexivity.
     - right. specialize (He2 eq_refl).
       split; [intros Hn; rewrite Hn in Heq; cbn in Heq; contradiction|].
-      cbv zeta. unfold agg_args.
+      cbv zeta. unfold CallDefs.agg_args.
       assert (Hplain : map res_value vals = map (fun x => res_value (Spec.wrap x)) (sp param root cur))
         by (rewrite Heq, map_map; reflexivity).
       rewrite Hplain.
